@@ -13,7 +13,7 @@ Inductive target :=
 Definition target_of (r : request) : target :=
   match r with
   | RAddCluster i _ | RRemoveCluster i | RSetHc i _ | RRemoveHc i => TCluster i
-  | RAddListener k a _ | RUpdateListener k a _ => TListener k a
+  | RAddListener k a _ _ | RUpdateListener k a _ => TListener k a
   | RRemoveListener p a | RActivate p a | RDeactivate p a =>
     match kind_of p with Some k => TListener k a | None => TNone end
   | RAddFront tls f | RRemoveFront tls f => THttpFront tls (front_key f)
